@@ -83,9 +83,42 @@ def label_problems(isa, text):
     return probs, prog.enc_errors
 
 
+TABLE_CLASH_SRC = """data A { CTOR, C }
+data TYPE2 { D, E }
+def mkA(p: i64): A { if p == 0 { CTOR } else { C } }
+def mkB(p: i64): TYPE2 { if p == 0 { D } else { E } }
+def main(a: i64, b: i64): i64 { let x: A = mkA(a); let y: TYPE2 = mkB(b); let r: i64 = x.case { CTOR => 1, C => 2 }; let s: i64 = y.case { D => 10, E => 20 }; r + s }
+"""
+
+
+def table_label_clash(E):
+    """jump-table labels are <type>_<counter> and clause labels <type>_<counter>_<xtor>: type `A` with constructor `B_m` at
+    counter n and type `A_n_B` at counter m both print `A_n_B_m`.  The counter is process-global, so the numbers are
+    predicted from two preliminary compilations in this process (same program up to the two names)."""
+    def numbers(src, t2):
+        r = E.req({'cmd': 'stages', 'asm': True, 'src': src})
+        txt = ((r.get('asm') or {}).get('x86_64') or {}).get('text') or ''
+        a = re.findall(r'^A_(\d+):', txt, re.M)
+        b = re.findall(r'^' + re.escape(t2) + r'_(\d+):', txt, re.M)
+        return (int(a[0]), int(b[0])) if a and b else None
+    mk = lambda c, t: TABLE_CLASH_SRC.replace('CTOR', c).replace('TYPE2', t)
+    n1 = numbers(mk('B_1', 'A_1_B'), 'A_1_B')
+    n2 = numbers(mk('B_1', 'A_1_B'), 'A_1_B')
+    if not n1 or not n2:
+        return None
+    d = n2[0] - n1[0]
+    n, m = n2[0] + d, n2[1] + d
+    return mk(f'B_{m}', f'A_{n}_B')
+
+
 def scan_program(item):
     E = e0mod.shared()
     req = {'cmd': 'stages', 'asm': True}
+    if item.get('adaptive') == 'table-label':
+        src = table_label_clash(E)
+        if src is None:
+            return {'name': item['name'], 'obligations': 0, 'discharged': 0, 'reports': [], 'skipped': True}
+        item = dict(item, src=src)
     if 'src' in item:
         req['src'] = item['src']
     else:
@@ -108,7 +141,10 @@ def scan_program(item):
                 out['reports'].append((f"{isa_name}/program/unparsable", f"{item['name']} ({isa_name}): {e}"[:300], {'program': item['name'], 'src': item.get('src')}))
                 continue
             if probs or enc:
-                out['reports'].append((f"{isa_name}/program/" + ('encoding' if enc else 'labels'), f"{item['name']} ({isa_name}): {'; '.join(probs + enc)[:300]}",
+                key = f"{isa_name}/program/" + ('encoding' if enc else 'labels')
+                if item.get('adaptive') == 'table-label' and not enc and len(probs) == 1 and re.fullmatch(r"labels defined twice: \['A_\d+_B_\d+'\]", probs[0]):
+                    key = "program/labels/table-label-concatenation"
+                out['reports'].append((key, f"{item['name']} ({isa_name}): {'; '.join(probs + enc)[:300]}",
                                        {'program': item['name'], 'src': item.get('src'), 'problems': probs, 'enc': enc}))
                 continue
             if isa_name == 'x86_64':
@@ -120,6 +156,29 @@ def scan_program(item):
             out['discharged'] += 1
     finally:
         shutil.rmtree(work, ignore_errors=True)
+    return out
+
+
+def generated_name_clashes(E):
+    """programs in which a USER definition carries the printed name of a definition the compiler generates (lifted critical
+    pairs print as lift_<def>__<id>): the name is found by compiling; adding the definition shifts the ids, so the
+    construction is iterated (every iterate is scanned: a compiler that avoids the clash makes the sequence oscillate)"""
+    import funprogs
+    out = []
+    for b in funprogs.lift_order()[:2]:
+        src, user = b['src'], None
+        for k in range(4):
+            r = E.req({'cmd': 'stages', 'src': src})
+            names = re.findall(r'^def (lift_\w+?)\(', (r.get('shrunk') or {}).get('text') or '', re.M)
+            if user is not None:
+                out.append({'name': f"names/lifted-definition-clash/{b['name']}/{k}", 'src': src})
+                if names.count(user) >= 2:
+                    break
+            gen = [n for n in names if n != user]
+            if not gen:
+                break
+            user = gen[0]
+            src = b['src'].replace('\ndef main(', f"\ndef {user}(x: i64): i64 {{ x + 1 }}\ndef main(", 1)
     return out
 
 
@@ -199,7 +258,7 @@ def c14():
     # (c) whole programs through the pipeline (repository corpus + generated families + typed random programs):
     #     labels defined once / references defined / label characters, encodability, GNU as on the x86-64 text
     import tv
-    pitems = [{'name': os.path.basename(f), 'path': f} for f in corpus_files()] + tv.gen_items(tier, 'all')
+    pitems = [{'name': os.path.basename(f), 'path': f} for f in corpus_files()] + tv.gen_items(tier, 'all') + generated_name_clashes(E) + [{'name': 'names/table-label-clash', 'adaptive': 'table-label'}]
     pres = fw.pmap(scan_program, pitems, order_seed=fw.seed())
     progs = 0
     for r in pres:
@@ -226,7 +285,7 @@ def c14():
                 "families incl. nested type arguments and generated-looking names, typed random programs) on the three back ends",
         'samples': samples, 'kani_seconds': round(ksecs, 1), 'fragments_parsed': frag_cnt, 'fragment_seconds': round(frag_s, 1),
         'corpus_programs': progs, 'solver_queries': cnt['queries'], 'solver_seconds': cnt['solver_s'],
-        'not_claimed': "no user identifier collides with a runtime or generated symbol, for all identifiers (label-forming code is format!/String; exercised on the corpus only)",
+        'not_claimed': "no user identifier collides with a runtime or generated symbol, for all identifiers (label-forming code is format!/String, not encodable; exercised on the corpus, the generated-looking-name families and two adaptively constructed clashes: lifted-definition names and table-label concatenation)",
         'exhaustive': True,
     })
     chk.assumptions += ["capacity notes: AArch64 add_and_jump immediate limits a codata type to 1023 destructors, RV64 to 511"]
